@@ -10,6 +10,14 @@ in full with certified leaves, `to_matrix44` for every size / dtype, `slices2aff
 `ChainTransform` construction rules and `param` histories, `PolyAffine` in full.
 Translator (harness/props/c08_tables.py): the literal tables and constants of affine.py /
 polyaffine.{py,c} are regenerated into Gen/C08Tables.lean, which the model is defined from.
+Expression translator (harness/props/c08_source.py): the bodies of rotation_vec2mat, to_matrix44,
+threshold, preconditioner, _get_param / _set_param, as_affine, compose / inv, the three from_matrix44,
+Transform.compose,
+ChainTransform.apply, PolyAffine.apply / compose / left_compose and the static helpers of
+polyaffine.c are regenerated as Lean terms into Gen/C08Source.lean; Props/C08Source.lean proves
+they are what the model implements.  Wave 4 (harness/props/c08_w4.py): `apply` on every dtype /
+layout / batch shape of a point set, pickled / copied transforms; `inv()` and pickling inside
+operation histories.
 Oracle: the property's clauses evaluated on the real code.
 """
 from __future__ import annotations
@@ -21,7 +29,7 @@ from fractions import Fraction
 import numpy as np
 
 from harness.core import PropertyCheck
-from harness.props import c08_ext, c08_tables
+from harness.props import c08_ext, c08_source, c08_tables, c08_w4
 from harness.props.c08_ext import ExtMixin, f44_leaves
 from harness.util import Snapshot, errname, fr, frs, parse_rats
 
@@ -244,15 +252,17 @@ RT_DIRECT = 1e-10     # plain float evaluation of an exact rational formula
 RT_ROUND = 5e-7       # values that went through from_matrix44 (SVD, quaternion, acos, log/exp)
 
 
-class C08(ExtMixin, PropertyCheck):
+class C08(c08_w4.W4Mixin, ExtMixin, PropertyCheck):
     id = "C08"
     title = "Spatial transforms compose, invert and parametrise consistently"
-    lean_modules = ["NipyVerif.Props.C08", "NipyVerif.Props.C08B"]
+    lean_modules = ["NipyVerif.Props.C08", "NipyVerif.Props.C08B", "NipyVerif.Props.C08Source"]
     _build_spec = staticmethod(lambda spec: _build(spec))
     _quad = staticmethod(lambda pts: _quad(pts))
+    _leaf_tok = staticmethod(lambda spec, t: _leaf_tok(spec, t))
 
     def translators(self):
-        return [("NipyVerif/Gen/C08Tables.lean", c08_tables.lean_text())]
+        return [("NipyVerif/Gen/C08Tables.lean", c08_tables.lean_text()),
+                ("NipyVerif/Gen/C08Source.lean", c08_source.lean_text())]
     driver = "Drivers/C08.lean"
     rule = ("cases are seeded: ordered class pairs (all 36, several parameter vectors each, built by "
             "param / 12-vector / 4x4 / negated 4x4 / raw dyadic 4x4), rotation vectors (angles incl. "
@@ -269,7 +279,13 @@ class C08(ExtMixin, PropertyCheck):
             "copy); ChainTransform with every kind of pre / post / optimizable argument and 0..5 param "
             "assignments; PolyAffine with 1..6 centres, affines as transforms or arrays, scalar / vector / "
             "zero sigma, global affine as transform / array / None, apply / compose / left_compose, far "
-            "points (weight underflow); non-trivial = not the identity transform on an empty point set; "
+            "points (weight underflow); wave 4: one transform (affine family / ChainTransform / PolyAffine "
+            "with the global affine as transform, float64 / float32 / integer / Fortran array or list) applied "
+            "to the same numbers as int8..int64 / uint8..uint32 / float32 / float64 arrays in C / Fortran / "
+            "strided / negative-stride / last-axis-strided / read-only layout, nested lists and tuples, batch "
+            "shapes (N,3) incl. N = 0, (3,), (A,B,3), (A,0,3), directly or after pickle / copy.copy / "
+            "copy.deepcopy / copy() with the copy edited afterwards; histories also contain t = t.inv() and a "
+            "pickle round trip; non-trivial = not the identity transform on an empty point set; "
             "distinct by full JSON of the case")
     assumptions = [
         "norm, sin, cos, exp of the parameter vector are parameters of the model: the harness passes "
@@ -296,12 +312,41 @@ class C08(ExtMixin, PropertyCheck):
         "Gaussian weights of PolyAffine (exp) are parameters of the model; the polyaffine.c kernel is "
         "rebuilt from /repo with gcc and called through ctypes, the .pyx argument checks are not exercised",
         "IEEE-754 rounding of matrix products / inverses is within the stated tolerances (scales in [1/4, 4])",
+        "Gen/C08Source.lean holds the source's expressions with the transcendental / LAPACK / NumPy calls as named "
+        "leaves (np.sqrt(np.sum(r ** 2)), np.sin, np.cos, np.exp(threshold(...)), spl.svd, spl.det as the exact "
+        "determinant, spl.inv as the exact inverse, rotation_mat2vec as a function parameter, the cube root, "
+        "np.log); a leaf is recognised by its exact text, conversions np.array / np.asarray(..., dtype='double') "
+        "are value-preserving; the C helpers _gaussian / _add_weighted_affine / _apply_affine are read with a "
+        "small C statement reader (counted for-loops unrolled, double arithmetic as exact rationals), the "
+        "iterator loop of apply_polyaffine is tied as an ordered list of statements only",
+        "shape cases: the argument checks of _registration.pyx (_apply_polyaffine / check_array) are re-stated "
+        "in the harness wrapper around the rebuilt polyaffine.c, since the .pyx cannot be rebuilt; batch shapes "
+        "other than (N, 3) are tied to the model for the affine family (apply_affine documents (..., 3)) but a "
+        "refusal there is not an oracle failure; an empty point set cannot be presented as a nested list",
+        "t = t.inv() inside a history is sent to the model only from well-conditioned states (cond < 50, "
+        "entries of the matrix and of its inverse < 1e3, i.e. away from the MAX_DIST / LOG_MAX_DIST clipping); the state after it is compared to 1e-9 relative (the model inverts exactly, "
+        "scipy.linalg.inv in binary64); re-assigning param = param is compared with an extra 1e-15 * |rotation "
+        "vector| (an ulp of an angle near MAX_ANGLE is a visible rotation)",
     ]
     level_note = ("matrix -> vector -> matrix and as_affine ∘ from_matrix44 = id are proved for every "
                   "assignment of the transcendental / LAPACK leaves that satisfies their exact certificates "
-                  "(vec2mat_mat2vec, from_to_matrix44, rigid_/similarity_from_to_matrix44); in floating point "
-                  "the certificates hold to ~1e-15 only, and the zero-angle branch of quat2axangle (rotations "
-                  "below 3 eps) carries an explicit bound instead of equality (mat2vec_identity_branch)")
+                  "(vec2mat_mat2vec, from_to_matrix44, rigid_/similarity_from_to_matrix44, hist_inv_affine); in "
+                  "floating point the certificates hold to ~1e-15 only, and the zero-angle branch of quat2axangle "
+                  "(rotations below 3 eps) carries an explicit bound instead of equality "
+                  "(mat2vec_identity_branch): 2*acos(w) cannot resolve such angles, so equality is false there. "
+                  "The source's expressions (both branches and thresholds of rotation_vec2mat, to_matrix44 for "
+                  "sizes 6 / 7 / 12, threshold, preconditioner, param get / set of all six classes, as_affine, compose / inv matrices, the three "
+                  "from_matrix44 statement by statement, Transform.compose, ChainTransform.apply, PolyAffine "
+                  "apply / compose / left_compose, the C helpers of polyaffine.c) are regenerated from the text "
+                  "and proved to be the model's (C08Source: *_as_modelled), and 'every rotation vector yields a "
+                  "proper rotation', compose = nested application, inverse maps back, chain = product of its "
+                  "parts, the polyaffine kernel = Poly.applyW are stated of the text as written (*_from_source). "
+                  "Not theorems: that binary64 sin / cos / sqrt / exp / svd / eigh satisfy their certificates "
+                  "(checked per case to 1e-13..2e-14), the double-angle link between acos and sin / cos "
+                  "(hypothesis of vec2mat_mat2vec: no real-analysis model of math.acos here), dtype / layout / "
+                  "batch-shape independence of apply and pickling (NumPy semantics: oracle + row-wise tie), the "
+                  "PyArray iterator loop of apply_polyaffine (ordered statement list + correspondence through the "
+                  "rebuilt C)")
     finding_keys = {}
 
     # ------------------------------------------------------------------ generation
@@ -403,6 +448,8 @@ class C08(ExtMixin, PropertyCheck):
         cases += c08_ext.gen_hist(rng, K * (150 if q else 6000), spec_fn, _raw34)
         cases += c08_ext.gen_chain2(rng, K * (80 if q else 3000), spec_fn)
         cases += c08_ext.gen_polyfull(rng, K * (60 if q else 2500), spec_fn)
+        # ---- wave 4: every presentation of a point set (dtype / layout / batch shape), transforms as values
+        cases += c08_w4.gen_shape(rng, K * (100 if q else 3000), spec_fn, _gen_spec)
         return cases
 
     # ------------------------------------------------------------------ per case
@@ -496,7 +543,10 @@ class C08(ExtMixin, PropertyCheck):
                 if fail is None:
                     a3 = a.copy()
                     a3.param = a3.param
-                    d = _far(a3.apply(pts), ya, 1e-9 * S)
+                    # (x / precond) * precond may move x by an ulp: for rotation vectors far beyond 2 pi
+                    # (up to MAX_ANGLE) an ulp of the angle is a visible rotation
+                    ang = _mag(np.asarray(a._vec12, dtype=float)[3:6], np.asarray(a._vec12, dtype=float)[9:12])
+                    d = _far(a3.apply(pts), ya, (1e-9 + 1e-15 * ang) * S)
                     if d:
                         fail = f"re-assigning {sa['cls']}.param changes the point mapping: {d}"
             except Exception as e:
@@ -912,6 +962,39 @@ class C08(ExtMixin, PropertyCheck):
             for key in ("pre", "post"):
                 if case[key]["s"] != "none":
                     yield {**case, key: {"s": "none"}}
+        if k == "shape":
+            if case["shape"] != [1, 3]:
+                yield {**case, "shape": [1, 3], "vals": case["vals"][:3] if len(case["vals"]) >= 3 else [1.0, 2.0, 3.0]}
+            if case["via"] != "apply":
+                yield {**case, "via": "apply"}
+            if case["layout"] != "C":
+                yield {**case, "layout": "C"}
+            if case["dtype"] != "float64":
+                yield {**case, "dtype": "float64"}
+            if case["target"] == "poly":
+                if len(case["centers"]) > 1:
+                    yield {**case, "centers": case["centers"][:1], "affs": case["affs"][:1]}
+                if case["glob"] != "none":
+                    yield {**case, "glob": "none"}
+                if case["globint"] != c08_w4.INT34[0]:
+                    yield {**case, "globint": c08_w4.INT34[0]}
+                if case["sigma"] != 1.0:
+                    yield {**case, "sigma": 1.0}
+                if case["centers_as"] != "float":
+                    yield {**case, "centers_as": "float"}
+                if case.get("pcomp", "none") != "none":
+                    yield {**case, "pcomp": "none"}
+                for i, s_ in enumerate(case["affs"]):
+                    if any(x != 0 for x in s_["nat"]) or s_["via"] != "param":
+                        affs = list(case["affs"])
+                        affs[i] = {"cls": s_["cls"], "nat": [0.0] * 12, "radius": 100, "via": "param"}
+                        yield {**case, "affs": affs}
+            if case["target"] == "chain":
+                for key in ("pre", "post"):
+                    if case[key] is not None:
+                        yield {**case, key: None}
+            if any(v != 0 for v in case["vals"]):
+                yield {**case, "vals": [0.0] * len(case["vals"])}
         if k == "polyfull":
             if len(case["centers"]) > 1 and len(case["affs"]) == len(case["centers"]):
                 yield {**case, "centers": case["centers"][:1], "affs": case["affs"][:1]}
